@@ -5,11 +5,15 @@ import json
 import os
 import shutil
 import tempfile
+import time
+
+import random
 
 import common as C
 import progs as P
 import values as V
 import c01_targeted as T
+import c06_ident as I
 
 COQ_FILES = ("L6_Conc/FsOps.v", "L6_Conc/LocalProgs.v", "L6_Conc/CrashProofs.v", "L6_Conc/SeqRefine.v", "L6_Conc/Recovery.v", "Properties/C06.v", "Properties/C06b.v")
 PROPERTY_FILES = ("C06", "C06b")
@@ -128,10 +132,26 @@ def run(rep, tier, seed, proof_ok):
                 "open, write, close, remove, symlink, replace, ...) and in the middle of every write; then a new process (a) evaluates "
                 "the same pipeline and loads all paths: results must equal the uncrashed run, no exception; (b) without re-evaluation "
                 "loads the paths committed before the crash: old or new complete value; exhaustive over the operation indices of the "
-                "traced uncrashed run; payloads are pickled tuples")
+                "traced uncrashed run; payloads are pickled tuples.  Second dimension, the identity of the processes (c06_ident.py): "
+                "crash HISTORIES of several process lifetimes on one store (forked children of drive_c06srv.py, each with the code "
+                "version and the pid the history gives it: os.getpid is what the history says), checked against the values of an "
+                "uncrashed evaluation on a bare store (= plain execution without dds): (A) every crash point of both scenarios with "
+                "the killed process, a load-only probe and two recoveries in a row all under ONE pid (container restarted on its "
+                "volume: pid 1 at every start); (A') crash loop: the restarted process is killed again at the same logical operation, "
+                "twice, before a recovery gets through; (B) for every distinct directory state left by a crash point (names up to their "
+                "random part): recovery under another pid then the same pid with changed code, under a pid that is a textual prefix "
+                "of the killed one, and with the code changed after the crash (thorough: also the pid reused after a setup under "
+                "another pid, and the prefix pair in the other order); (C) double crash: the recovery is "
+                "killed again before / in the middle of each of ITS operations (same or another pid), then probe + two recoveries "
+                "(quick: seeded sample of the pairs; thorough: all pairs over the distinct states); (D) seeded random chains of 2-4 "
+                "kills with pids drawn from small sets and versions changing in between, so that leftovers of every kind (temporary "
+                "blob, metadata, link, of several processes) are present when the next evaluation starts")
     rep.assumptions += ["kill -9 semantics: completed system calls are durable, in order (no power-loss reordering)",
-                        "writes that do not go through Python's file objects (pyarrow) are not interposed; payloads are pickle/str/bytes"]
+                        "writes that do not go through Python's file objects (pyarrow) are not interposed; payloads are pickle/str/bytes",
+                        "histories: the pid of a process is what os.getpid() answers in it (patched in the forked child that plays the process); "
+                        "a process started by fork from a parent that imported but never used dds stands for a newly started interpreter"]
     total, crashed = 0, 0
+    real = {}
     for name in ("first-keep", "re-keep-changed"):
         setup, prog = scenario(name)
         template = None
@@ -149,6 +169,7 @@ def run(rep, tier, seed, proof_ok):
         rc, res, out = run_child(ref, prog, [CALL] + [{"a": "load", "path": p} for p in PATHS], gate={"mode": "trace"})
         expected = res[0]["out"]
         new_vals = {p: r["out"] for p, r in zip(PATHS, res[1:4])}
+        real[I.crash_version(name)] = {"expected": expected, "vals": new_vals}
         trace = [e for e in res[-1]["gate_log"]]
         # only the operations of the evaluation itself (the loads that follow are probes)
         n_eval = max(e[0] for e in trace if e[1] in ("symlink", "replace", "write", "mkdir", "remove", "close", "open")) + 1
@@ -178,10 +199,147 @@ def run(rep, tier, seed, proof_ok):
         shutil.rmtree(tdir, ignore_errors=True)
     rep.extra["input_distribution"] = {"crash_runs": total, "actually_crashed": crashed}
     rep.sample({"scenario": "first-keep", "crash_before_operation": 13, "half_write": True})
+    t0 = time.time()
+    try:
+        identity_histories(rep, tier, seed, real)
+    finally:
+        I.close_servers()
+    rep.extra["input_distribution"]["wall_seconds_of_the_histories"] = round(time.time() - t0, 1)
+
+
+def plain_reference(version):
+    """The values the pipeline has without dds (keep = call, load = the value most recently kept)."""
+    base = tempfile.mkdtemp(prefix="c06p_", dir=C.scratch_dir())
+    try:
+        prog = pipeline(version)
+        P.write_package(prog, os.path.join(base, "src"))
+        res = C.run_driver("drive_prog.py", {"root": os.path.join(base, "src"), "pkg": prog["pkg"], "store": {"kind": "memory"}, "nodds": True,
+                                             "kept_file": os.path.join(base, "kept.pickle"), "actions": [CALL] + I.LOADS})
+        return {"expected": res[0]["out"], "vals": {p: r["out"] for p, r in zip(PATHS, res[1:4])}}
+    finally:
+        shutil.rmtree(base, ignore_errors=True)
+
+
+def identity_histories(rep, tier, seed, real):
+    """The identity of the processes as a dimension of the crash enumeration: see c06_ident.py."""
+    I._pipeline = pipeline
+    rng = random.Random(seed)
+    quick = tier == "quick"
+    versions = (0, 1) if quick else (0, 1, 2)
+    scenarios = ("first-keep", "re-keep-changed")
+    # expected values: an uncrashed evaluation of each version on a bare store, by a forked process; they must be what plain
+    # execution gives, and what the separate interpreter processes of the first dimension returned
+    ref, ok_plain, ok_real = {}, True, True
+    with cf.ThreadPoolExecutor(max_workers=C.NPROC) as ex:
+        plains = list(ex.map(plain_reference, versions))
+    for v, plain in zip(versions, plains):
+        r = I.run_history([{"v": v, "pid": 1}], {v: plain})
+        ref[v] = plain
+        if r["problems"]:
+            ok_plain = False
+            rep.violation("crash-history:uncrashed-run-differs-from-plain-execution", f"version {v}: an evaluation on a bare local store does not "
+                          f"return the values of plain execution: {r['problems'][:2]}", {"history": [{"v": v, "pid": 1}], "plain": plain})
+        if v in real and real[v] != plain:
+            ok_real = False
+    rep.obligation("C06 histories: uncrashed evaluation on a bare store = plain execution without dds", ok_plain)
+    rep.obligation("C06 histories: forked processes of drive_c06srv.py return what separate interpreter processes return", ok_real)
+    if not (ok_plain and ok_real):
+        if not ok_real:
+            rep.violation("harness-error:c06-histories", f"the reference values differ: {real} / {ref}", {"real": real, "ref": ref}, no_input=True)
+        return
+    fam_count, classes, leftover_kinds = {}, {}, {}
+
+    def run_family(family, hists):
+        with cf.ThreadPoolExecutor(max_workers=C.NPROC) as ex:
+            results = list(ex.map(I.safe_history, [(h, ref) for h in hists]))
+        for h, r in zip(hists, results):
+            fam_count[family] = fam_count.get(family, 0) + 1
+            rep.case(json.dumps([family, h]), nontrivial=any(r["killed"]))
+            if r.get("harness_error"):
+                rep.violation("harness-error:c06-histories", f"{family} history could not be run: {r['harness_error']}", {"history": h}, no_input=True)
+                continue
+            for n in r["ops"]:
+                c = I.ident_class(h, min(n + 1, len(h) - 1))
+                classes[c] = classes.get(c, 0) + 1
+                for l in r["leftovers"].get(n, []):
+                    k = ("temporary-metadata" if ".meta" in l else "temporary-blob") if "/blobs/" in l else "temporary-link"
+                    leftover_kinds[k] = leftover_kinds.get(k, 0) + 1
+            for kind, n, detail in r["problems"]:
+                kills = [k for k in sorted(r["ops"]) if k < n]
+                op = r["ops"][kills[-1]] if kills else None
+                where = (f"{op[1]}{'-torn' if h[kills[-1]]['kill'][1] and op[1] == 'write' else ''}:{I.obj_kind(op)}" if op else "no-kill")
+                ic = I.ident_class(h, n)
+                rep.violation(f"crash-history:{kind.split(':')[0]}:{ic}:{where}",
+                              f"history ({family}) [{I.describe(h, r)}]: process #{n + 1} ({I.IDENT_TEXT[ic]}): "
+                              f"{kind} -> {detail}",
+                              {"family": family, "history": h, "failing_process": n, "identity": ic, "problem": kind, "detail": detail,
+                               "killed_operations": r["ops"], "leftovers": r["leftovers"], "expected": ref})
+        return results
+    # (A) every crash point, everything under one pid
+    points, traces = {}, {}
+    for name, r in zip(scenarios, run_family("trace", [I.setup_steps(n, 1) + [{"v": I.crash_version(n), "pid": 1}] for n in scenarios])):
+        tr = r["traces"].get(len(I.setup_steps(name, 1)), [])
+        traces[name] = tr
+        points[name] = [(e[0], False) for e in tr] + [(e[0], True) for e in tr if e[1] == "write"]
+    jobs = [(name, i, half) for name in scenarios for i, half in sorted(points[name])]
+    res_a = run_family("one-pid", [I.single_kill(*j) for j in jobs])
+    # distinct directory states left by the crash points, with the operations of the recovery that follows
+    reps = {}
+    for (name, i, half), r in zip(jobs, res_a):
+        k = len(I.setup_steps(name, 1))
+        if k in r["digests"] and (name, r["digests"][k]) not in reps:
+            reps[(name, r["digests"][k])] = (name, i, half, r["traces"].get(k + 2, []))
+    reps = [reps[k] for k in sorted(reps)]
+    # (A') crash loop: the restarted process is killed at the same logical operation again, twice, before a recovery gets through
+    loops = []
+    for (name, i, half), r in zip(jobs, res_a):
+        k = len(I.setup_steps(name, 1))
+        same = [e[0] for e in r["traces"].get(k + 2, []) if k in r["ops"] and I.logical(e) == I.logical(r["ops"][k])]
+        if same:
+            loops.append(I.crash_loop(name, i, half, same[0]))
+    run_family("crash-loop", loops)
+    # (B) other identities and code versions of the recovery
+    run_family("identities", [h for (name, i, half, _) in reps for _, h in I.variants(name, i, half, full=not quick)])
+    # (C) the recovery is killed again
+    pairs, strata = [], {}
+    for (name, i, half, tr) in reps:
+        for e in tr:
+            for h2 in ((False, True) if e[1] == "write" else (False,)):
+                pairs.append((name, i, half, e[0], h2))
+                strata.setdefault((name, e[1], I.obj_kind(e), h2), []).append(pairs[-1])
+    n_pairs = len(pairs)
+    if quick and pairs:
+        # a seeded sample, spread over the kinds of operation at which the recovery is killed
+        for k in strata:
+            rng.shuffle(strata[k])
+        pairs = [ps[r] for r in range(max(len(ps) for ps in strata.values())) for _, ps in sorted(strata.items()) if r < len(ps)][:120]
+        dk = [I.double_kill(*p, same=rng.random() < 0.7) for p in pairs]
+    else:
+        dk = [I.double_kill(*p, same=s) for p in pairs for s in (True, False)]
+    run_family("double-kill", dk)
+    # (D) random chains
+    max_ops = max(len(t) for t in traces.values()) + 2
+    run_family("chain", [I.random_chain(rng, versions, max_ops) for _ in range(40 if quick else 600)])
+    rep.extra["input_distribution"].update({"history_runs": sum(fam_count.values()), "histories_by_family": fam_count,
+                                            "distinct_crash_states": len(reps), "double_kill_histories": len(dk), "double_kill_pairs_over_the_distinct_states": n_pairs,
+                                            "kills_by_identity_of_the_next_process": classes, "leftovers_present_at_a_later_start": leftover_kinds,
+                                            "pids": "1 everywhere | 31337 reused | 31337 then 31338 | 1 / 11 | chains: {1}, {1,11}, {5,6}, {70001,70002}",
+                                            "code_versions": list(versions)})
+    rep.sample({"history": I.double_kill("re-keep-changed", 41, False, 7, False)})
 
 
 def replay(path):
     r = json.load(open(path))["replay"]
+    if "history" in r:
+        I._pipeline = pipeline
+        try:
+            ref = r.get("expected") or dict((v, plain_reference(v)) for v in sorted({st["v"] for st in r["history"]}))
+            res = I.run_history(r["history"], dict((int(k), v) for k, v in ref.items()))
+        finally:
+            I.close_servers()
+        print(I.describe(r["history"], res))
+        print("problems:", res["problems"] or "none")
+        return 1 if res["problems"] else 0
     setup, prog = scenario(r["scenario"])
     base = tempfile.mkdtemp(prefix="c06replay_")
     if setup:
